@@ -174,6 +174,28 @@ def identity_modal_template(rng):
     return prems, conc
 
 
+def boxed_universal_template(rng):
+    """The same universal sentence reaching several sibling worlds of one branch, only some of which hold a
+    sentence that mentions a constant: which twin node is instantiated first is a tie-break (seeded R4C09-A)."""
+    x = ('v', 0, 0)
+    F, G = (0, 0, 1), (1, 0, 1)
+    c = ('c', rng.randrange(3), 0)
+    def box(s): return ('O', 'Necessity', (s,))
+    def dia(s): return ('O', 'Possibility', (s,))
+    def neg(s): return ('O', 'Negation', (s,))
+    Fx = ('P', F, (x,))
+    body = rng.choice((Fx, Fx, neg(Fx), ('O', 'Disjunction', (Fx, ('P', G, (x,))))))
+    allF = ('Q', 'Universal', (0, 0), body)
+    nobody = ('Q', 'Universal', (0, 0), neg(body))
+    ground = rng.choice((('P', G, (c,)), neg(('P', G, (c,))), ('P', F, (c,))))
+    atom = ('A', rng.randrange(2), 0)
+    prems = [rng.choice((box(allF), box(allF), box(box(allF)), allF))]
+    prems += rng.sample([dia(ground), dia(ground), dia(atom), dia(neg(atom)), ground, dia(dia(ground))], rng.choice((1, 2, 2, 3)))
+    rng.shuffle(prems)
+    conc = rng.choice((box(neg(nobody)), box(neg(nobody)), neg(dia(nobody)), box(('Q', 'Existential', (0, 0), body)),
+                       dia(neg(nobody)), box(('O', 'Disjunction', (neg(nobody), atom)))))
+    return prems, conc
+
 def _deep_kernels():
     a, b = ('A', 0, 0), ('A', 1, 0)
     neg = lambda s: ('O', 'Negation', (s,))
